@@ -446,6 +446,11 @@ def plan(ctx, prop="C04"):
         jobs.append(((prop, "chain", node, "future", "burst", 3, 0, (1, 2, 5)), 1))
         if T:
             jobs.append(((prop, "chain", node, "future", "burst", 4, 0, (1, 3, 2, 4)), 0))
+    # partition with key=: one key's group fills while another key's group is still waiting
+    for node in ("partition:2:0:parity", "partition:2:1:parity"):
+        for kind in ("future", "sync"):
+            jobs.append(((prop, "chain", node, kind, "burst", 3, 0, (1, 2, 3)), 1))
+            jobs.append(((prop, "chain", node, kind, "await", 4, 0, (1, 2, 4, 3)), 1 if T else 0))
     for node in PLAIN:
         jobs.append(((prop, "chain", node, "future", "await", 3, 0), 1))
         if prop == "C04":
